@@ -492,10 +492,19 @@ def msgno_argument_sites(db, rep):
 
 
 def uidl_name_sites(db, rep):
-    """printfn(): the unique id shown for a message is its file name without the directory, cut at the FIRST colon - the part
-    that stays the same when QUIT renames new/x to cur/x:2, - for names with none, one and several colons"""
+    """UIDL n (the handler the command table names for "uidl", run on a concrete three-message table): the unique id shown is the
+    file name without its directory, cut at the FIRST colon - the part that stays the same when QUIT renames new/x to cur/x:2, -
+    for names with none, one and several colons"""
     prog = db.program('qmail-pop3d')
-    fn = prog.fn('printfn', 'qmail-pop3d.c')
+    tab = db.unit('qmail-pop3d.c').globals.get('pop3commands')
+    hname = None
+    for row in (tab or {}).get('init', {}).get('v', []):
+        r = row['v']
+        if r[0].get('k') == 'str' and (r[0].get('v') or '').lower() == 'uidl' and r[1].get('k') == 'fn':
+            hname = r[1]['v'][2:]
+    if hname is None:
+        raise AnalysisBroken('pop3commands[]: no uidl entry')
+    fn = prog.fn(hname, 'qmail-pop3d.c')
     bad = None
     names = [b'new/1000.2.host', b'cur/1000.2.host:2,', b'cur/1000.2.host:2,S', b'new/1000.2.fe80::1', b'cur/1000.2.fe80::1:2,', b'new/x:', b'cur/:2,']
     for name in names:
@@ -512,17 +521,23 @@ def uidl_name_sites(db, rep):
                 outb.append(self_.cstring(E, libtab._one(args[1])))
                 return [Outcome(ret=fs(0))]
             prim_substdio_puts = prim_substdio_bputs = _puts
-        H = PH('printfn')
-        st = {0: fs(('&', 'FN[0]'))}
-        st.update(libtab.conc_string_cells('FN', name))
-        libtab._run_conc(db, rep, prog, fn, st, 'printfn', H)
+
+            def prim_substdio_flush(self_, E, x, args):
+                return [Outcome(ret=fs(0))]
+        H = PH(hname)
+        st = {0: fs(('&', 'ARG[0]')), 'G:m': fs(('&', 'M[0]')), 'G:numm': fs(3)}
+        st.update(libtab.conc_string_cells('ARG', b'2'))
+        for k, nm in enumerate((b'new/1.1.a', name, b'new/3.3.c')):
+            st.update({'M[%d].fn' % k: fs(('&', 'FN%d[0]' % k)), 'M[%d].flagdeleted' % k: fs(0), 'M[%d].size' % k: fs(100 + k)})
+            st.update(libtab.conc_string_cells('FN%d' % k, nm))
+        libtab._run_conc(db, rep, prog, fn, st, hname, H)
         if len(H.ends) != 1:
-            raise AnalysisBroken('printfn: %d ends for %r' % (len(H.ends), name))
+            raise AnalysisBroken('%s("2"): %d ends for %r' % (hname, len(H.ends), name))
         got = None if any(o is None for o in outb) else b''.join(outb)
         want = name[4:].split(b':')[0]
-        if got != want and bad is None:
-            bad = 'file %r is shown as %r; documented: %r (the name up to the first colon: the same before and after the message moves to cur/ with an info suffix)' % (name.decode(), got, want)
-    return {'uidl:unique-id=file-name-up-to-the-first-colon': (bad is None, 'qmail-pop3d.c:printfn', bad or '%d file names' % len(names), [])}
+        if (got is None or not got.endswith(b'2 ' + want + b'\r\n')) and bad is None:
+            bad = 'UIDL 2 for the file %r answers %r; documented: "+OK 2 %s" (the name up to the first colon: the same before and after the message moves to cur/ with an info suffix)' % (name.decode(), got, want.decode())
+    return {'uidl:unique-id=file-name-up-to-the-first-colon': (bad is None, 'qmail-pop3d.c:' + hname, bad or '%d file names' % len(names), [])}
 
 
 def run(ctx):
